@@ -11,7 +11,9 @@ import SageModel.Drv.C18
 
 /-! Driver op for C01.
 
-`e2e <cfg…> <fasta…> <files…> <planted…> | ok <tsv rows…> <pin rows…> <fragment rows…>`
+`e2e <cfg…> <fasta…> <files…> <planted…> [optional trailing groups … <parquet 0|1>] |
+ ok <tsv rows…> <pin rows…> <fragment rows…> <tmt rows…> <lfq table> [pq (ok <parquet tables…> | <failure class>)]`
+(formats: header of harness/src/ops/c01.rs)
 
 Two independent judgements per run:
 
@@ -121,9 +123,14 @@ def pRun : P Run := do
         pure ({ level, title, rt, ref, inj, noise, peaks } : Extra))
       pure ({ format, style, inj, extras } : FileFmt))
     let lfqPlanted ← list (do let f ← nat; let p ← bytes; let e ← bool; pure (f, p, e))
+    -- third optional trailing token (absent in older request lines): the `--parquet` second run was requested
+    let rest ← get
+    let parquet ← match rest with
+      | [] => pure false
+      | _ => bool
     pure { cfg := { cfg with lfq, lfqPeakScoring, lfqIntegration, lfqSpectralAngle := f64val sa, lfqPpm := ppm, lfqCombine,
                              tmtLevel, tmtSn },
-           fasta, files, planted, fmts, lfqPlanted }
+           fasta, files, planted, fmts, lfqPlanted, parquet }
 
 def pRow : P Row := do
   let psmId ← nat; let peptide ← bytes; let proteins ← bytes; let numProteins ← nat
@@ -165,13 +172,68 @@ def pLfq : P (Option LfqTable) := opt (do
   let rows ← list pLfqRow
   pure ({ fileCols, rows } : LfqTable))
 
+def pTsvExtra : P TsvExtra := do
+  let alignedRt ← nat; let predictedRt ← nat; let deltaRtModel ← nat; let ionMobility ← nat
+  let predictedMobility ← nat; let deltaMobility ← nat; let longestYPct ← nat
+  pure { alignedRt, predictedRt, deltaRtModel, ionMobility, predictedMobility, deltaMobility, longestYPct }
+
+def pPqRow : P PqRow := do
+  let psmId ← int; let filename ← bytes; let scannr ← bytes; let peptide ← bytes; let stripped ← bytes
+  let proteins ← bytes; let numProteins ← int; let rank ← int; let isDecoy ← bool
+  let expmass ← nat; let calcmass ← nat; let charge ← int; let peptideLen ← int; let missedCleavages ← int
+  let semiEnzymatic ← bool; let ms2Intensity ← nat; let isotopeError ← nat; let precursorPpm ← nat
+  let fragmentPpm ← nat; let hyperscore ← nat; let deltaNext ← nat; let deltaBest ← nat; let rt ← nat
+  let alignedRt ← nat; let predictedRt ← nat; let deltaRtModel ← nat; let ionMobility ← nat
+  let predictedMobility ← nat; let deltaMobility ← nat; let matchedPeaks ← int; let longestB ← int
+  let longestY ← int; let longestYPct ← nat; let matchedIntensityPct ← nat; let scoredCandidates ← int
+  let poisson ← nat; let discriminant ← nat; let posteriorError ← nat; let spectrumQ ← nat; let peptideQ ← nat
+  let proteinQ ← nat
+  let reporters ← opt (list (opt nat))
+  pure { psmId, filename, scannr, peptide, stripped, proteins, numProteins, rank, isDecoy, expmass, calcmass, charge,
+         peptideLen, missedCleavages, semiEnzymatic, ms2Intensity, isotopeError, precursorPpm, fragmentPpm, hyperscore,
+         deltaNext, deltaBest, rt, alignedRt, predictedRt, deltaRtModel, ionMobility, predictedMobility, deltaMobility,
+         matchedPeaks, longestB, longestY, longestYPct, matchedIntensityPct, scoredCandidates, poisson, discriminant,
+         posteriorError, spectrumQ, peptideQ, proteinQ, reporters }
+
+def pPqFrag : P PqFragRow := do
+  let psmId ← int; let kind ← bytes; let ordinal ← int; let charge ← int
+  let mzCalc ← nat; let mzExp ← nat; let intensity ← nat
+  pure { psmId, kind, ordinal, charge, mzCalc, mzExp, intensity }
+
+def pPqLfq : P PqLfqRow := do
+  let peptide ← bytes; let stripped ← bytes; let charge ← opt int; let proteins ← bytes; let isDecoy ← bool
+  let q ← nat; let filename ← bytes; let intensity ← nat
+  pure { peptide, stripped, charge, proteins, isDecoy, q, filename, intensity }
+
+/-- the optional trailing group `pq (ok <tables> | <failure class>)` -/
+def pPq : P PqReply := do
+  let rest ← get
+  match rest with
+  | [] => pure .absent
+  | _ => do
+    let m ← tok
+    if m != "pq" then failure else
+    let st ← tok
+    if st != "ok" then pure (.failed st) else
+    let extras ← list pTsvExtra
+    let rows ← list pPqRow
+    let frags ← opt (list pPqFrag)
+    let lfq ← opt (list pPqLfq)
+    let tsvToo ← bool
+    pure (.tables { extras, rows, frags, lfq, tsvToo })
+
 def firstSome {α} (l : List α) (f : α → Option String) : Option String := l.findSome? f
+
+/-- the whole reply: TSV / pin / fragment / TMT / LFQ tables and the optional parquet group -/
+def pReply : P (List Row × List PinRow × List FragRow × List TmtRow × Option LfqTable × PqReply) := do
+  let r ← list pRow; let p ← list pPin; let f ← list pFrag; let t ← list pTmtRow; let l ← pLfq; let q ← pPq
+  pure (r, p, f, t, l, q)
 
 def verdict (run : Run) (impl : List String) : String :=
   match impl with
   | "ok" :: rest =>
-    match runPrefix (do let r ← list pRow; let p ← list pPin; let f ← list pFrag; let t ← list pTmtRow; let l ← pLfq; pure (r, p, f, t, l)) rest with
-    | some ((rows, pins, frags, tmts, lfq), []) =>
+    match runPrefix pReply rest with
+    | some ((rows, pins, frags, tmts, lfq, pq), []) =>
       match firstSome rows (fun r => (rowViolation run r).map (fun c => c ++ "@" ++ strOfBytes r.filename ++ ":" ++ strOfBytes r.scannr ++ "#" ++ toString r.rank)) with
       | some c => "bad:row_" ++ c
       | none =>
@@ -184,15 +246,21 @@ def verdict (run : Run) (impl : List String) : String :=
             match (if run.cfg.annotate then fragViolation run rows frags else none) with
             | some c => "bad:" ++ c
             | none =>
-              match plantedViolation run rows with
+              match (if run.cfg.tmt != 0 then (tmtViolation run tmts).orElse fun _ => tmtJoinViolation run rows tmts else none) with
               | some c => "bad:" ++ c
               | none =>
-                match (if run.cfg.tmt != 0 then (tmtViolation run tmts).orElse fun _ => tmtJoinViolation run rows tmts else none) with
+                match lfqViolation run rows lfq with
                 | some c => "bad:" ++ c
                 | none =>
-                  match lfqViolation run rows lfq with
+                  -- the parquet tables of the second run against the (now known to be consistent) TSV tables;
+                  -- evaluated BEFORE the planted-peptide clause so that a run hitting the recorded rank-1
+                  -- finding still has its parquet output compared
+                  match parquetViolation run rows frags tmts lfq pq with
                   | some c => "bad:" ++ c
-                  | none => "ok"
+                  | none =>
+                    match plantedViolation run rows with
+                    | some c => "bad:" ++ c
+                    | none => "ok"
     | _ => "bad:unparsable_reply"
   | ["panic"] => "bad:program_panicked"
   | [e] => "bad:program_failed_" ++ e
@@ -541,12 +609,26 @@ def handle (op : String) (args impl : List String) : Option Reply :=
     let extra : String :=
       match impl with
       | "ok" :: rest =>
-        match runPrefix (do let r ← list pRow; let _ ← list pPin; let _ ← list pFrag; let t ← list pTmtRow; let l ← pLfq; pure (r, t, l)) rest with
-        | some ((rows, tmts, lfq), _) =>
+        match runPrefix pReply rest with
+        | some ((rows, _, _, tmts, lfq, pq), _) =>
           (if run.cfg.tmt != 0 then s!" tmt_rows={tmts.length}" else "") ++
           (match lfq with
            | some t => s!" lfq_rows={t.rows.length} lfq_claims={run.lfqPlanted.length} lfq_claims_live={lfqClaimsLive run rows}"
-           | none => "")
+           | none => "") ++
+          (match pq with
+           | .absent => ""
+           | .failed c => " pq_failed=" ++ c
+           | .tables t =>
+             let withRep := (t.rows.filter fun p => p.reporters.isSome).length
+             -- PSM rows for whose scan id ANOTHER input file has a tmt.tsv row with other channel values: the rows on
+             -- which a reporter join keyed by the scan id alone can be seen to pick the wrong file's intensities
+             let colliding := (t.rows.filter fun p =>
+               match tmts.find? (fun q => q.filename == p.filename && q.scannr == p.scannr) with
+               | some own => tmts.any fun q => q.scannr == p.scannr && q.filename != p.filename && q.values != own.values
+               | none => tmts.any fun q => q.scannr == p.scannr && q.filename != p.filename).length
+             s!" pq_rows={t.rows.length} pq_reporter_rows={withRep} pq_rows_scan_quantified_differently_in_other_file={colliding}" ++
+             (match t.frags with | some f => s!" pq_frag_rows={f.length}" | none => "") ++
+             (match t.lfq with | some l => s!" pq_lfq_rows={l.length}" | none => ""))
         | none => ""
       | _ => ""
     pure { model := model ++ extra, agree := agree, spec := verdict run impl }
